@@ -620,6 +620,8 @@ structure Genesis where
   keys : List (Nat × Addr)
   nStored : Nat
   defaultMaxVals : Int
+  signing : List (Addr × Sign) := []              -- `signing_infos` of an exported genesis (override the fresh ones)
+  missed : List ((Addr × Int) × Bool) := []       -- `missed_blocks` of an exported genesis
 
 /-- `InitChain`: auth genesis (accounts, explicit supply), pos genesis (validators staked and
 indexed, signing infos from height 0, pool funded with the stake, first validator-set update
@@ -638,6 +640,9 @@ def genesis (g : Genesis) : State × List (Addr × Int) :=
     let st2 := { st1 with sign := aset st1.sign e.1 { start := 0, offset := 0, missed := 0, jailedUntil := 0, tomb := false },
                           rel := e.1 :: st1.rel, supply := st1.supply + e.2 }
     setBal st2 st2.pool (balOf st2 st2.pool + e.2)) s1
+  -- exported signing state: written after the validators (keyed writes, the order among them is immaterial)
+  let s2 := { s2 with sign := g.signing.foldl (fun m e => aset m e.1 e.2) s2.sign,
+                      missedBits := g.missed.foldl (fun m e => bitSet m e.1.1 e.1.2 e.2) s2.missedBits }
   let s3 := mint s2 s2.daoAcc g.daoTokens
   match updateValidators { s3 with p := { s3.p with maxVals := g.defaultMaxVals } } with
   | some (s4, ups) => ({ s4 with p := g.p }, ups)
